@@ -4,6 +4,10 @@ TB = ("Trusted: Lean 4.33 kernel (axioms at most propext, Classical.choice, Quot
       "the hand-written model, tied to the code only by the correspondence run (differential testing of the model's executable definitions against the real crate on generated and enumerated inputs); "
       "SHA-256 as a free term algebra. ")
 TEXT = {
+    "C10": {
+        "text": "Theorems: the stored AeadPack encoding is canonical (whatever bytes decode to a pack ARE its encoding, so every byte-level modification decodes to an error or a different nonce/ciphertext); the nonce-length gate separates the two ciphers; same password with a different salt or seed derives a different key (the KDF input is password ++ seed); another password does not unlock; over any sequence of encryptions under a key all nonces are pairwise distinct. Definitional in the symbolic model (and therefore only TESTED against the real ciphers): decrypt∘encrypt = id, other key fails, tampering fails. Tie: differential tests on both ciphers (all sizes, all single-bit flips of small packs, structural mutations, wrong key, wrong cipher), KDF pairwise distinctness, and the nonce multiset of every pack found in the event logs after generated account histories.",
+        "note": TB + "Partial: RNG quality and the cipher implementations themselves cannot be exhibited by the model.",
+    },
     "C16": {
         "text": "Theorems: a folder whose rows all carry the digest of their content and whose parts are present reports nothing (for every history that produced it); replacing the content of any one vault row by any different byte string, or the stored checksum of any one event record by any different value, is reported (free hash); a missing vault or log is reported. Tie: the real account_integrity on accounts from generated histories on both backends: clean run, then single-bit flips in content / checksum regions (byte offsets from the real row iterator; sqlite cells) and removals; file-system cases are replayed on the model from the bytes actually on disk.",
         "note": TB + "Modelled rather than verified: row framing, sqlite, the concurrency/cancellation machinery of the report. External file blobs not yet covered.",
